@@ -56,7 +56,21 @@ pub fn run_call<S: Exec>(op: &str, f: &str, args: &[Val<S>]) -> Outcome<S> {
     }
 }
 
+fn has_surd(j: &Value) -> bool {
+    match j {
+        Value::Array(a) => {
+            if a.len() == 3 && a.iter().all(|x| x.is_i64()) { return true; }
+            a.iter().any(has_surd)
+        }
+        Value::Object(o) => o.get("c").map(has_surd).unwrap_or(false),
+        _ => false,
+    }
+}
+/// ops whose contract is written for square-root-valued arguments
+const SURD_AWARE: &[&str] = &["euler_from_quat"];
+
 pub struct Machine<S: Exec> {
+    pub surd: Vec<bool>,
     pub regs: Vec<Val<S>>,
     pub pid: u64,
     pub out: Vec<String>,
@@ -67,7 +81,7 @@ pub fn is_bad(enc: &str) -> bool { enc.contains("[0,0,0,0]") || enc.contains("[0
 
 impl<S: Exec> Machine<S> {
     pub fn new(pid: u64, regs: Vec<Val<S>>) -> Self {
-        let mut m = Machine { regs, pid, out: Vec::new(), ncalls: 0, cut: None };
+        let mut m = Machine { surd: vec![false; NREG], regs, pid, out: Vec::new(), ncalls: 0, cut: None };
         while m.regs.len() < NREG { m.regs.push(Val::Nil); }
         let rs: Vec<String> = m.regs.iter().map(|r| r.enc()).collect();
         m.out.push(format!("{{\"ev\":\"reset\",\"pid\":{},\"sc\":\"{}\",\"regs\":[{}]}}", pid, S::NAME, rs.join(",")));
@@ -76,9 +90,17 @@ impl<S: Exec> Machine<S> {
     /// returns false when the program must stop here
     pub fn call(&mut self, op: &str, f: &str, args: &[usize], dst: usize) -> bool {
         let av: Vec<Val<S>> = args.iter().map(|&i| self.regs[i].clone()).collect();
+        if S::KIND == Kind::Float && args.iter().any(|&i| self.surd[i]) && !SURD_AWARE.contains(&op) {
+            self.cut = Some("surd-argument".into());
+            return false;
+        }
         match run_call::<S>(op, f, &av) {
             Outcome::Done(v) => {
+                let surd_ok = crate::sc::SURD_OPS.contains(&op)
+                    || (crate::sc::SURD_QUAT_OPS.contains(&op) && matches!(v, Val::Q(_) | Val::DQ(_)));
+                crate::sc::SURD_OK.with(|c| c.set(surd_ok));
                 let enc = catch_unwind(AssertUnwindSafe(|| v.enc())).unwrap_or_else(|_| "{\"t\":\"Raw\",\"c\":[[0,0,0,0]]}".to_string());
+                crate::sc::SURD_OK.with(|c| c.set(false));
                 let a1: Vec<String> = args.iter().map(|i| (i + 1).to_string()).collect();
                 self.out.push(format!(
                     "{{\"ev\":\"call\",\"pid\":{},\"sc\":\"{}\",\"op\":\"{}\",\"f\":\"{}\",\"a\":[{}],\"d\":{},\"res\":{}}}",
@@ -89,6 +111,7 @@ impl<S: Exec> Machine<S> {
                 // floats: continue from the exact value the model holds, so rounding does not accumulate
                 if S::KIND == Kind::Float {
                     let j: Value = serde_json::from_str(&enc).unwrap();
+                    self.surd[dst] = has_surd(&j["c"]);
                     self.regs[dst] = match catch_unwind(AssertUnwindSafe(|| Val::<S>::dec(&j))) { Ok(x) => x, Err(_) => v };
                 } else {
                     self.regs[dst] = v;
